@@ -41,6 +41,10 @@ def family():
         if q and "/repeat1/" not in label and "/now/" not in label:
             continue
         yield label, prog, dict(kind="env")
+    for label, prog, meta in F.fam_cond_aux_fork():
+        if q and "/repeat1/" not in label:
+            continue
+        yield label, prog, dict(kind="env")
     for label, prog, meta in F.fam_clocks((0.125, 0.1) if q else F.DYADIC_TICKS + F.DECIMAL_TICKS):
         yield label, prog, dict(kind="single", horizon=24)
     for label, prog, meta in F.fam_fiats(2 if q else 3):
@@ -49,6 +53,8 @@ def family():
         if q and "/mm/" not in label and "/fb/" not in label and "/bf/" not in label:
             continue
         yield label, prog, dict(kind="single", horizon=8)
+    for label, prog, meta in F.fam_selfbids():
+        yield label, prog, dict(kind="single", horizon=10)
     for label, prog, meta in F.fam_markers():
         yield label, prog, dict(kind="markers")
     for label, prog, meta in F.fam_clones():
